@@ -59,20 +59,23 @@ func (e *UserErr) Error() string { return fmt.Sprintf("user error of f%d exec %d
 type PanicVal struct{ Fn, Exec int }
 
 type RT struct {
-	Log     []Event
-	Toks    []TokDesc // token t is Toks[t-1]
-	execs   map[int]int
-	errs    map[[2]int]*UserErr
-	panics  map[[2]int]*PanicVal
-	curOp   int
-	advance func(time.Duration)
-	ftypes  map[*Fn]reflect.Type
-	active  map[int]int // fn → number of bodies currently on the stack
-	Nested  []int       // fns whose body was entered while already running
+	Log       []Event
+	Toks      []TokDesc // token t is Toks[t-1]
+	execs     map[int]int
+	errs      map[[2]int]*UserErr
+	panics    map[[2]int]*PanicVal
+	curOp     int
+	advance   func(time.Duration)
+	ftypes    map[*Fn]reflect.Type
+	scopeOf   func(int) scopeAPI // set by Run: scope index -> live scope
+	decoIDs   map[int]bool       // fn ids registered through Decorate
+	Reentered int
+	active    map[int]int // fn → number of bodies currently on the stack
+	Nested    []int       // fns whose body was entered while already running
 }
 
 func newRT() *RT {
-	return &RT{ftypes: map[*Fn]reflect.Type{}, execs: map[int]int{}, errs: map[[2]int]*UserErr{}, panics: map[[2]int]*PanicVal{}, active: map[int]int{}}
+	return &RT{decoIDs: map[int]bool{}, ftypes: map[*Fn]reflect.Type{}, execs: map[int]int{}, errs: map[[2]int]*UserErr{}, panics: map[[2]int]*PanicVal{}, active: map[int]int{}}
 }
 
 func (rt *RT) newTok(fn, exec int, slot string, elem int) int64 {
@@ -321,6 +324,21 @@ func (rt *RT) call(f *Fn, args []reflect.Value) []reflect.Value {
 	if f.Dur > 0 && rt.advance != nil {
 		rt.advance(time.Duration(f.Dur))
 	}
+	if f.Reenter != nil && exec == 0 && rt.scopeOf != nil && rt.active[f.ID] == 1 {
+		// not while a decorator is on the stack: resolution then skips it
+		// by design and the nested consumer would see the undecorated value
+		decoActive := false
+		for id, n := range rt.active {
+			if n > 0 && rt.decoIDs[id] {
+				decoActive = true
+			}
+		}
+		if !decoActive {
+			rt.Reentered++
+			nf := &Fn{ID: -f.ID, P: f.Reenter.P}
+			_ = rt.scopeOf(f.Reenter.S).Invoke(rt.Materialise(nf))
+		}
+	}
 	outcome := FaultOK
 	if exec < len(f.Faults) {
 		outcome = f.Faults[exec]
@@ -365,11 +383,16 @@ func (rt *RT) Materialise(f *Fn) interface{} {
 	}).Interface()
 }
 
+// bankLookup is assigned in bank.go's init (indirection avoids an
+// initialisation cycle between the bank literals and the probe body).
+var bankLookup func(i int) func(rt *RT, f *Fn) interface{}
+
 func bankMake(rt *RT, f *Fn) interface{} {
-	if f.Bank < 1 || f.Bank > len(bankFactories) {
+	mk := bankLookup(f.Bank - 1)
+	if mk == nil {
 		panic(fmt.Sprintf("no bank entry %d", f.Bank-1))
 	}
-	return bankFactories[f.Bank-1](rt, f)
+	return mk(rt, f)
 }
 
 func hostileType(name string) reflect.Type {
